@@ -515,19 +515,30 @@ def _norm_shape(s):
 
 
 def _parse_sig(t):
-    """token-stream rendering of a return type -> shape term"""
+    """token-stream rendering of a return type -> shape term (any path ending in Option / Vec counts as such; references and
+    other paths are leaves)"""
     if t is None:
         return None
     t = t.replace(" ", "")
+
+    def skip_generics(j):
+        depth = 0
+        while j < len(t):
+            ch = t[j]
+            if ch == "<":
+                depth += 1
+            elif ch == ">":
+                if depth == 0:
+                    break
+                depth -= 1
+                if depth == 0:
+                    return j + 1
+            elif ch in ",)" and depth == 0:
+                break
+            j += 1
+        return j
+
     def parse(i):
-        if t.startswith("::pest_typed::re_exported::Option::<", i):
-            inner, j = parse(i + len("::pest_typed::re_exported::Option::<"))
-            assert t[j] == ">", t[j:]
-            return ["Option", inner], j + 1
-        if t.startswith("::pest_typed::re_exported::Vec::<", i):
-            inner, j = parse(i + len("::pest_typed::re_exported::Vec::<"))
-            assert t[j] == ">", t[j:]
-            return ["Vec", inner], j + 1
         if t[i] == "(":
             items = []
             j = i + 1
@@ -538,22 +549,25 @@ def _parse_sig(t):
                     j += 1
             return ["Tuple"] + items, j + 1
         if t[i] == "&":
-            # &'ssuper::super::rules::r#x::<'i,INHERITED>  : skip to the end of the path (balanced <>)
-            j = i
-            depth = 0
-            while j < len(t):
-                ch = t[j]
-                if ch == "<":
-                    depth += 1
-                elif ch == ">":
-                    if depth == 0:
-                        break
-                    depth -= 1
-                elif ch in ",)" and depth == 0:
-                    break
+            j = i + 1
+            if t[j] == "'":                       # lifetime
                 j += 1
-            return "x", j
-        raise ValueError(t[i:])
+                while t[j].isalnum() or t[j] == "_":
+                    j += 1
+            return "x", skip_generics(j)
+        # a path: segments separated by ::, up to < or a delimiter
+        j = i
+        while j < len(t) and t[j] not in "<,)>(":
+            j += 1
+        path = t[i:j]
+        if path.endswith("::"):
+            path = path[:-2]
+        last = path.split("::")[-1]
+        if j < len(t) and t[j] == "<" and last in ("Option", "Vec"):
+            inner, k = parse(j + 1)
+            assert t[k] == ">", t[k:]
+            return [last, inner], k + 1
+        return "x", skip_generics(j)
     try:
         sh, j = parse(0)
         return sh
@@ -924,6 +938,9 @@ def fam_opt(tier):
                       inputs=[cps(x) for x in ["a-a", "a(b-b)a", "aaa", "a(bb)-a", "b(a(b-b)a)b"]]))
         g.append(dict(id="op5", text=ws + '\nCOMMENT = _{ "#" ~ (!"#" ~ ANY)* ~ "#" }\ndoc = { SOI ~ (item ~ ";")* ~ EOI }\nitem = { key ~ "=" ~ val }\nkey = @{ ASCII_ALPHA+ }\nval = { key | "[" ~ val* ~ "]" }',
                       alphabet=cps("a=;[] #"), maxlen=3, inputs=[cps(x) for x in ["a=a;", "a = [a a];", "a=[[a]a];a=a;", "a #c# = a ;", "a=[;", "a=a"]]))
+    import re
+    for x in g:      # the skip rules themselves as entry rules are C01's known finding, not an option effect
+        x["entries"] = [n for n in re.findall(r"(?m)^(\w+)\s*=", x["text"]) if n not in ("WHITESPACE", "COMMENT")]
     return g
 
 
